@@ -300,7 +300,9 @@ impl<'a> Compiler<'a> {
             }
         }
         let i = upvalues.len();
-        upvalues.push(Upvalue { is_local, index });
+        upvalues
+            .try_push(Upvalue { is_local, index })
+            .map_err(|_| self.error(CompilationErrorPayload::TooManyUpvalues))?;
         Ok(i)
     }
 
